@@ -10,6 +10,17 @@ def handleLine (line : String) : String :=
       | .ok c => id ++ "\tok\t" ++ showToks (TT.unspaceList (printCode c))
       | .error e => id ++ "\terr:" ++ e.name ++ "\t-"
     | _, _ => id ++ "\tbadinput\t-"
+  | ["SPEC", id, kind, struct, world] =>
+    match Kind.ofString kind, parseInput struct, parseWorld world with
+    | some k, some p, some w => id ++ "\t" ++ showM (specRun (mkWorld w) (some "main") p k)
+    | _, _, _ => id ++ "\tbadinput"
+  | ["RUN", id, kind, struct, world] =>
+    match Kind.ofString kind, parseInput struct, parseWorld world with
+    | some k, some p, some w =>
+      match gen p k with
+      | .ok c => id ++ "\t" ++ showM (evalCode (mkWorld w) (some "main") c)
+      | .error e => id ++ "\tgenerr:" ++ e.name
+    | _, _, _ => id ++ "\tbadinput"
   | ["ECHO", id, struct] =>
     match parseInput struct with
     | some p => id ++ "\t" ++ showInput p
